@@ -61,7 +61,8 @@ def run(ctx):
     corr = ctx.corr("DefaultBarMatcher.match", "outcome and accumulator of every real matcher call vs model `matchOrder/turnoverAfter` fed with bundle-derived volume and limits")
     _run_directed(ctx, corr)
     tstream.stream(ctx, ctx.n(90, 3000), None, [monitors.c0506_monitor("C06")], extra_sync=lambda c, tr, ix: match_sync.run_sync(c, corr, tr, ix),
-                   market_opts=lambda k: {"opts": {"p_thin": 0.8, "p_limit": 0.3, "p_split": 0.7 if k % 2 else 0.3, "kinds": ["CS"] * 7 + ["ETF"] if k % 2 else ["CS"] * 6 + ["ETF", "KSH"]}})
+                   market_opts=lambda k: {"opts": {"p_thin": 0.8, "p_limit": 0.3, "p_split": 0.7 if k % 2 else 0.3, "kinds": ["CS"] * 7 + ["ETF"] if k % 2 else ["CS"] * 6 + ["ETF", "KSH"]}},
+                   cfg_opts=lambda k: {"c06_plans": True})
 
 
 def _run_directed(ctx, corr):
